@@ -105,7 +105,12 @@ def eliminate_returns(stmts, target, close=True):
 
 
 def _simple_def(fn):
-    if not isinstance(fn, ast.FunctionDef) or fn.decorator_list:
+    if not isinstance(fn, ast.FunctionDef):
+        return False
+    if fn.decorator_list and not (
+            len(fn.decorator_list) == 1 and
+            isinstance(fn.decorator_list[0], ast.Name) and
+            fn.decorator_list[0].id == "staticmethod"):
         return False
     a = fn.args
     if a.vararg or a.kwarg or a.posonlyargs:
@@ -286,6 +291,14 @@ class Expander(object):
             if tgt is not None and tgt.node is not fi.node and \
                     self.is_new(self._short(tgt.qual)):
                 a = tgt.node.args.args
+                static = any(isinstance(d, ast.Name) and d.id == "staticmethod"
+                             for d in tgt.node.decorator_list)
+                if static:
+                    for sq in self.model.subclasses(fi.cls, True):
+                        sc = self.model.classes.get(sq)
+                        if sc and f.attr in sc.methods:
+                            return None
+                    return tgt.node, False
                 if a and a[0].arg == "self" and not any(
                         isinstance(d, ast.Name) and d.id in ("staticmethod",
                                                              "classmethod")
